@@ -10,7 +10,7 @@ use stylua_lib::Config;
 pub struct SweepEntry {
     pub option: String,
     pub value: String,
-    /// toml | dot-toml | flag | flag-lower | flag-upper | editorconfig | editorconfig-lower
+    /// toml | dot-toml | flag | flag-lower | flag-upper | flag-mixed | editorconfig | editorconfig-lower
     pub carrier: String,
     /// for editorconfig carriers: the lines of the `[*.lua]` section
     pub ec_lines: Vec<String>,
@@ -23,7 +23,7 @@ pub fn sweep() -> Vec<SweepEntry> {
     };
     for (opt, vals) in model::ENUM_OPTIONS {
         for v in *vals {
-            for c in ["toml", "flag", "flag-lower", "flag-upper"] {
+            for c in ["toml", "flag", "flag-lower", "flag-upper", "flag-mixed"] {
                 push(opt, v, c, vec![]);
             }
         }
@@ -40,6 +40,9 @@ pub fn sweep() -> Vec<SweepEntry> {
         push("indent_width", &w.to_string(), "editorconfig", vec![format!("indent_size = {w}")]);
         push("indent_width", &w.to_string(), "editorconfig", vec!["indent_size = tab".into(), format!("tab_width = {w}")]);
     }
+    // `tab_width` only matters when `indent_size = tab`
+    push("indent_width", "2", "editorconfig", vec!["indent_style = tab".into(), "indent_size = 2".into(), "tab_width = 8".into()]);
+    push("indent_width", "8", "editorconfig", vec!["indent_size = 8".into(), "tab_width = 2".into()]);
     for v in ["true", "false"] {
         push("sort_requires", v, "toml", vec![]);
         push("sort_requires", v, "editorconfig", vec![format!("sort_requires = {v}")]);
@@ -100,6 +103,15 @@ pub fn sweep_case(e: &SweepEntry, rng: &mut Rng) -> Case {
         "flag" => opts.overrides = kv,
         "flag-lower" => opts.overrides = vec![(e.option.clone(), e.value.to_lowercase())],
         "flag-upper" => opts.overrides = vec![(e.option.clone(), e.value.to_uppercase())],
+        "flag-mixed" => {
+            let v: String = e
+                .value
+                .chars()
+                .enumerate()
+                .map(|(i, c)| if i % 2 == 0 { c.to_ascii_lowercase() } else { c.to_ascii_uppercase() })
+                .collect();
+            opts.overrides = vec![(e.option.clone(), v)]
+        }
         _ => {
             let text = format!("[*.lua]\n{}\n", e.ec_lines.join("\n"));
             w.files.insert(format!("{CWD}/.editorconfig"), text.into_bytes());
@@ -236,9 +248,6 @@ pub fn selfcheck() -> Result<(usize, Vec<String>), String> {
         let mut outs: Vec<(String, String)> = Vec::new();
         for v in vals {
             let mut c = Config::default();
-            if *k == "indent_width" {
-                c.indent_type = stylua_lib::IndentType::Spaces;
-            }
             model::apply_option(&mut c, k, v, true)?;
             let sig = if *k == "syntax" {
                 SYNTAX_PROBES.iter().map(|(_, src)| fmt(c, src)).collect::<Vec<_>>().join("|")
